@@ -77,15 +77,10 @@ def run(repo, res):
     from .. import api_model
     api_model.apply(res, api_model.lint_model(repo), {'marks': 'C02-R2'}, LINTER, lint.lineno)
     decl = repo.method(EVAL, 'EvalCtx', 'declarations')
-    ok = False
-    for st in ast.walk(decl):
-        if isinstance(st, ast.If) and 'MultiName' in unparse(st.test):
-            body = ast.Module(body=st.body, type_ignores=[])
-            txt = unparse(body)
-            ok = ('valid_names' in txt and 'result.append(names)' in txt.replace('mname.valid_names', 'names')
-                  and '[:' not in txt)
-    res.check('C02-R2', 'declarations expands all alternatives', ok, EVAL, decl.lineno,
-              'declarations() must append the complete list of valid alternatives of a MultiName')
+    api_model.apply(res, api_model.declarations_model(repo), {'alts': 'C02-R2', 'single': 'C02-R2', 'chain': 'C02-R2'}, EVAL,
+                    decl.lineno)
+    api_model.apply(res, api_model.location_model(repo), {'pairs': 'C02-R2'}, 'supp/assistant.py', 0)
+
     # ---- R3 no partial join memoised ----------------------------------------------------
     c04.rule_provisional_memo(repo, res, 'C02-R3', only_cycle='LoopFlow.names')
 
